@@ -1,14 +1,9 @@
 SPECIFICATION GSpec
 CONSTANTS
-  Sizes <- SizesSmall
-  NB = 4
-  Kind = "small"
-  UnitMs = 250
-  Abs = TRUE
-  Times = {1, 2, 5, 17, 21, 61}
-  Deltas <- NoTimes
+  Kinds = {"small"}
+  Times = {1, 2, 5, 17, 61}
   Start = 1
   ChkSet = {FALSE}
-  GenDepth = 3
+  GenDepth = 4
 INVARIANT Emit
 CHECK_DEADLOCK FALSE
